@@ -1,14 +1,15 @@
 package main
 
 import (
-	"regexp"
 	"fmt"
-	"strings"
 	"go/constant"
 	"go/token"
 	"go/types"
+	"hash/crc32"
 	"math/big"
+	"regexp"
 	"sort"
+	"strings"
 
 	"golang.org/x/tools/go/ssa"
 )
@@ -16,7 +17,7 @@ import (
 // Val is the translator-level meaning of an SSA value.
 type Val struct {
 	T        Term
-	Loc      *Loc  // set for pointers that are locations rather than object references
+	Loc      *Loc // set for pointers that are locations rather than object references
 	Tup      []*Val
 	KnownLen int // for slices made from fixed-size arrays: static length, else -1
 	Closure  *ssa.MakeClosure
@@ -50,12 +51,12 @@ type inputTerm struct {
 }
 
 type loopInfo struct {
-	head   *ssa.BasicBlock
-	body   map[*ssa.BasicBlock]bool
-	ord    int    // source ordinal (1-based)
-	label  string // for goto loops
-	invs   []*Clause
-	mods   map[string]bool
+	head    *ssa.BasicBlock
+	body    map[*ssa.BasicBlock]bool
+	ord     int    // source ordinal (1-based)
+	label   string // for goto loops
+	invs    []*Clause
+	mods    map[string]bool
 	hasCall bool
 }
 
@@ -76,33 +77,33 @@ type Tr struct {
 	ct  *Contract
 	c   *Ctx
 
-	vals     map[ssa.Value]*Val
-	reach    map[*ssa.BasicBlock]Term
-	outSt    map[*ssa.BasicBlock]*State
-	edgeCond map[[2]int]Term
-	backEdge map[[2]int]bool
-	loops    map[*ssa.BasicBlock]*loopInfo
-	order    []*ssa.BasicBlock
-	obls     []*Obligation
-	ord      map[string]int
-	rets     []*retInfo
-	notes    []string
-	defers   []*deferRec
-	paramEnv map[string]*SVal
-	entrySt  *State
-	verify   bool
-	curBlk   *ssa.BasicBlock
-	curSt    *State
-	heldLocks []heldLock
-	ghostAt  map[string][]*ghostStmt
-	callOrd  map[string]int
-	trusted  map[string]bool // assumed contracts / library models used
+	vals        map[ssa.Value]*Val
+	reach       map[*ssa.BasicBlock]Term
+	outSt       map[*ssa.BasicBlock]*State
+	edgeCond    map[[2]int]Term
+	backEdge    map[[2]int]bool
+	loops       map[*ssa.BasicBlock]*loopInfo
+	order       []*ssa.BasicBlock
+	obls        []*Obligation
+	ord         map[string]int
+	rets        []*retInfo
+	notes       []string
+	defers      []*deferRec
+	paramEnv    map[string]*SVal
+	entrySt     *State
+	verify      bool
+	curBlk      *ssa.BasicBlock
+	curSt       *State
+	heldLocks   []heldLock
+	ghostAt     map[string][]*ghostStmt
+	callOrd     map[string]int
+	trusted     map[string]bool // assumed contracts / library models used
 	unsupported []string
-	specDefs map[string]*specDef
-	pseudoArgs []ssa.Value
-	onlyInstrs map[ssa.Instruction]bool // when set: translate only these (plus control flow)
-	clauseHits map[*Clause]int // call clauses: number of call sites each one matched
-	aliases  map[string]string // contract identifier -> local of the current source (a renamed local, see rebindRenamedLocals)
+	specDefs    map[string]*specDef
+	pseudoArgs  []ssa.Value
+	onlyInstrs  map[ssa.Instruction]bool // when set: translate only these (plus control flow)
+	clauseHits  map[*Clause]int          // call clauses: number of call sites each one matched
+	aliases     map[string]string        // contract identifier -> local of the current source (a renamed local, see rebindRenamedLocals)
 }
 
 type deferRec struct {
@@ -293,6 +294,12 @@ func (t *Tr) globalLoc(g *ssa.Global) *Loc {
 	pk := "?"
 	if g.Pkg != nil {
 		pk = g.Pkg.Pkg.Name()
+	}
+	if at, ok := pt.Underlying().(*types.Array); ok {
+		// a package-level array (a dispatch table, say): an array object of its own - a fixed reference no allocation
+		// returns - whose elements are whatever the element memory holds there (unconstrained unless a globalinv says more)
+		ref := tInt(-1000000 - int64(crc32.ChecksumIEEE([]byte(pk+"."+g.Name()))%1000000))
+		return &Loc{Kind: "arr", Comp: t.regElem(at.Elem()), Idx: ref, Typ: pt, Len: tInt(at.Len())}
 	}
 	comp := compGlobal(pk, g.Name())
 	t.c.regComp(comp, t.c.sortOf(pt))
